@@ -118,7 +118,7 @@ def cases(tier):
                     yield ('pivot', n, cfg, li, (sh, nsh))
     for nl in range(1, sc['n_join'] + 1):
         for nr in range(1, sc['n_join'] + 1):
-            for route in ('columns', 'index', 'two-columns', 'columns-shared-labels'):
+            for route in ('columns', 'index', 'two-columns', 'columns-shared-labels', 'index-depth-list'):
                 for li in range(2):
                     yield ('join', nl, nr, route, li)
 
@@ -225,7 +225,7 @@ def flat(t):
     return t if isinstance(t, tuple) and t and isinstance(t[0], tuple) else ((t,) if not (isinstance(t, tuple) and t and isinstance(t[0], tuple)) else t)
 
 
-STACK_PATTERNS = [('float64', 'float64', 'float64'), ('<U2', '<U6', '<U3'), ('float32', 'float64', 'float32'), ('int8', 'int64', 'int8')]
+STACK_PATTERNS = [('float64', 'float64', 'float64'), ('<U2', '<U6', '<U3'), ('float32', 'float64', 'float32'), ('int8', 'int64', 'int8'), ('int64', 'int64', 'float64')]
 
 
 def stack_value(dt, j, i):
@@ -237,7 +237,7 @@ def stack_value(dt, j, i):
     if dt == 'int8':
         return 10 * j + i
     if dt == 'int64':
-        return 10 ** 12 + 100 * j + i
+        return 2 ** 60 + 100 * j + i + 1      # not representable as a float64
     w = int(dt[2:])
     return ('%d%d' % (j, i) + 'wxyz')[:w]
 
@@ -290,7 +290,7 @@ def run_stack(case, ctx):
                     if extra:
                         ctx.violation(f'{first}.{second}|non-fill-extra-cell|{name}', **info, extra=extra[:3])
                 # with an explicit fill value that needs a wider dtype of the column's own kind: every cell without a source holds exactly that value
-                fill = {'float64': -0.1, '<U2': 'missing-value', 'float32': 0.1, 'int8': 10 ** 9}[pattern[0]]
+                fill = {'float64': -0.1, '<U2': 'missing-value', 'float32': 0.1, 'int8': 10 ** 9, 'int64': -(2 ** 59) - 3}[pattern[0]]
                 try:
                     midf = getattr(f, first)(fill_value=fill)
                     mc = cells(midf)
@@ -429,6 +429,11 @@ def ref_join(kind, lrows, rrows, lkeys, rkeys):
     return out
 
 
+def tree_ok(tuples):
+    from mc.props.c02 import tree_ordered
+    return len(set(tuples)) == len(tuples) and tree_ordered(list(tuples))
+
+
 def run_join(case, ctx):
     _, nl, nr, route, li = case
     alpha = (1, 2, 3)
@@ -445,7 +450,19 @@ def run_join(case, ctx):
             rk2 = ['abc'[(j * k) % 2] for j, k in enumerate(rk)]
             lv = [0.5 + i for i in range(nl)]
             rv = [100 + j for j in range(nr)]
-            if route == 'index':
+            if route == 'index-depth-list':
+                # the left key is taken from two depths of a hierarchical index, named inner depth first; the right key from two columns in that order
+                ltuples = [(lk[i], 10 + i) for i in range(nl)]
+                left, sig = mkframe([arr(lv, 'float64')], ['lv'], sf.IndexHierarchy.from_labels(ltuples) if tree_ok(ltuples) else None, li, name='L') if tree_ok(ltuples) else (None, None)
+                if left is None:
+                    continue
+                r1 = [10 + (j % 3) for j in range(nr)]
+                right, _ = mkframe([arr(r1, 'int64'), arr(rk, 'int64'), arr(rv, 'int64')], ['r1', 'r0', 'rv'], ridx, li, name='R')
+                kw = dict(left_depth_level=[1, 0], right_columns=['r1', 'r0'])
+                lkeys, rkeys = [(10 + i, lk[i]) for i in range(nl)], list(zip(r1, rk))
+                lrow_ids, rrow_ids = ltuples, ridx
+                lcols, rcols = {'lv': lv}, {'r1': r1, 'r0': list(rk), 'rv': rv}
+            elif route == 'index':
                 left, sig = mkframe([arr(lk2, '<U1'), arr(lv, 'float64')], ['k2', 'lv'], list(lk), li, name='L')
                 right, _ = mkframe([arr(rk2, '<U1'), arr(rv, 'int64')], ['k2', 'rv'], list(rk), li, name='R')
                 kw = dict(left_depth_level=0, right_depth_level=0)
@@ -490,7 +507,7 @@ def run_join(case, ctx):
                     ctx.violation(f'join_{kind}|rows|{route}', **info, got=canon(got), expected=canon(exp))
                     continue
                 # one-to-one keys: the same rows must come back when a composite index is declined
-                if len(set(lkeys)) == len(lkeys) and len(set(rkeys)) == len(rkeys) and route != 'index':
+                if len(set(lkeys)) == len(lkeys) and len(set(rkeys)) == len(rkeys) and route not in ('index', 'index-depth-list'):
                     ctx.transition()
                     try:
                         res1 = getattr(left, 'join_' + kind)(right, left_template='L_{}', right_template='R_{}', fill_value=None, composite_index=False, **kw)
@@ -500,7 +517,7 @@ def run_join(case, ctx):
                     except Exception as e:
                         ctx.violation(f'join_{kind}|composite_index=False|raises|{type(e).__name__}', **info, error=repr(e))
                 # each output row is labelled by its source rows (composite label) when both sides contribute labels
-                if route != 'index':
+                if route not in ('index', 'index-depth-list'):
                     gl = [tuple(None if x is None else str(x) for x in t) for t in res.index]
                     expl = sorted(repr((lrow_ids[a] if a is not None else None, rrow_ids[b] if b is not None else None)) for a, b in pairs)
                     if sorted(map(repr, gl)) != expl:
